@@ -84,12 +84,44 @@ pub fn build_stack(stack: Stack, plain: &[u8]) -> Result<Built, String> {
     Ok(Built { bytes, offset, rc })
 }
 
-pub fn open_stack<'a>(stack: Stack, b: &'a Built) -> Result<Box<dyn 'a + LayerReader<'a, Cursor<&'a [u8]>>>, String> {
-    let mut cur = Cursor::new(&b.bytes[..]);
-    cur.set_position(b.offset as u64);
+/// The source under the layers: an in-memory cursor which, when `cap` > 0, delivers at most `cap` bytes per
+/// read call (a legal `Read`: pipes, sockets and callback sources behave so).
+pub struct Src<'a> {
+    cur: Cursor<&'a [u8]>,
+    cap: usize,
+}
+
+impl Read for Src<'_> {
+    fn read(&mut self, buf: &mut [u8]) -> std::io::Result<usize> {
+        let n = if self.cap > 0 { buf.len().min(self.cap) } else { buf.len() };
+        self.cur.read(&mut buf[..n])
+    }
+}
+
+impl Seek for Src<'_> {
+    fn seek(&mut self, p: SeekFrom) -> std::io::Result<u64> {
+        self.cur.seek(p)
+    }
+}
+
+thread_local! {
+    /// read cap of the sources opened by this thread (0 = none); set around a history by `with_cap`
+    static READ_CAP: std::cell::Cell<usize> = const { std::cell::Cell::new(0) };
+}
+
+pub fn with_cap<T>(cap: usize, f: impl FnOnce() -> T) -> T {
+    let old = READ_CAP.with(|c| c.replace(cap));
+    let r = f();
+    READ_CAP.with(|c| c.set(old));
+    r
+}
+
+pub fn open_stack<'a>(stack: Stack, b: &'a Built) -> Result<Box<dyn 'a + LayerReader<'a, Src<'a>>>, String> {
+    let mut cur = Src { cur: Cursor::new(&b.bytes[..]), cap: READ_CAP.with(|c| c.get()) };
+    cur.cur.set_position(b.offset as u64);
     let mut raw = Box::new(RawLayerReader::new(cur));
     raw.reset_position().map_err(|e| format!("{e:?}"))?;
-    let mut src: Box<dyn 'a + LayerReader<'a, Cursor<&'a [u8]>>> = raw;
+    let mut src: Box<dyn 'a + LayerReader<'a, Src<'a>>> = raw;
     if matches!(stack, Stack::Encrypt | Stack::EncryptCompress) {
         src = Box::new(EncryptionLayerReader::new(src, &b.rc.encrypt).map_err(|e| format!("encrypt reader: {e:?}"))?);
     }
@@ -282,7 +314,8 @@ fn run_job(j: &Job, rep: &mut Report) {
         // the watchdog limit applies to each history, not to the whole job
         infra::watch_touch();
         rep.evaluations += 1;
-        let h = fnv(format!("{:?}{}{:?}", j.stack, j.len, hist).as_bytes());
+        let cap = READ_CAP.with(|c| c.get());
+        let h = fnv(format!("{:?}{}{:?}{}", j.stack, j.len, hist, cap).as_bytes());
         rep.state(h);
         if j.len > 0 {
             rep.nontrivial(h);
@@ -290,8 +323,11 @@ fn run_job(j: &Job, rep: &mut Report) {
         let mut t = 0;
         let r = run_history(j.stack, &plain, &built, hist, true, &mut t);
         rep.transitions += t;
-        if let Some((sig, detail)) = r {
-            rep.violate(Violation { sig, detail, replay: json!({"stack": j.stack.tag(), "len": j.len, "history": hist.iter().map(sjson).collect::<Vec<_>>()}), weight: (j.len * 1000 + hist.len()) as u64 });
+        if let Some((mut sig, detail)) = r {
+            if cap > 0 {
+                sig["source"] = json!("short reads");
+            }
+            rep.violate(Violation { sig, detail: if cap > 0 { format!("source delivering at most {cap} byte(s) per read: {detail}") } else { detail }, replay: json!({"stack": j.stack.tag(), "len": j.len, "read_cap": cap, "history": hist.iter().map(sjson).collect::<Vec<_>>()}), weight: (j.len * 1000 + hist.len()) as u64 });
         }
     };
     if j.tree_depth == 99 {
@@ -335,6 +371,13 @@ fn run_job(j: &Job, rep: &mut Report) {
             check(&[S::Start(t), S::Pos], rep);
             check(&[S::End(t), S::Pos], rep);
             check(&[S::Read(5), S::Cur(t), S::Pos], rep);
+            // the same over a source that delivers at most 7 / 1 bytes per read call (every third target)
+            if t % 3 == j.len % 3 {
+                with_cap(if t % 2 == 0 { 7 } else { 1 }, || {
+                    check(&[S::End(t), S::Pos, S::Read(CHUNK + 1)], rep);
+                    check(&[S::Read(5), S::Cur(t), S::Read(1)], rep);
+                });
+            }
         }
     } else {
         rep.class(&format!("{}/tree", j.stack.tag()));
@@ -446,7 +489,7 @@ pub fn run(started: Instant) -> i32 {
         rep,
         Meta {
             level: "model_checking",
-            rule: "layer stacks built as `mlar info` builds them (RawLayerReader+reset_position, EncryptionLayerReader, CompressionLayerReader, initialize) over streams produced by the real RawLayerWriter/CompressionLayerWriter and an independent AES-GCM chunk encoder (plus the encryption layer of real ArchiveWriter archives as a second source); for EVERY plaintext length 0..=2*block+chunk+8 and EVERY target in [0,len]: seek from start / from end / from the current position (after a 5-byte read), stream_position, then read to the end, in lock-step with std::io::Cursor; plus the complete tree of histories of depth 2 (thorough 3) over boundary targets x 3 seek kinds, read(k) and stream_position for 18 boundary lengths; plus long streams (258 blocks = 1032 chunks on every stack, 65538 chunks on the encryption stack) with seeks of the three kinds to targets around the 256th / 65536th unit edges. non-trivial = distinct (stack, length, history) with length > 0".to_string(),
+            rule: "layer stacks built as `mlar info` builds them (RawLayerReader+reset_position, EncryptionLayerReader, CompressionLayerReader, initialize) over streams produced by the real RawLayerWriter/CompressionLayerWriter and an independent AES-GCM chunk encoder (plus the encryption layer of real ArchiveWriter archives as a second source); for EVERY plaintext length 0..=2*block+chunk+8 and EVERY target in [0,len]: seek from start / from end / from the current position (after a 5-byte read), stream_position, then read to the end, in lock-step with std::io::Cursor (every third target also over a source delivering at most 7 / 1 bytes per read call); plus the complete tree of histories of depth 2 (thorough 3) over boundary targets x 3 seek kinds, read(k) and stream_position for 18 boundary lengths; plus long streams (258 blocks = 1032 chunks on every stack, 65538 chunks on the encryption stack) with seeks of the three kinds to targets around the 256th / 65536th unit edges. non-trivial = distinct (stack, length, history) with length > 0".to_string(),
             exhaustive: true,
             bounds: json!({"lengths": format!("0..={maxlen}"), "stacks": Stack::ALL.iter().map(|s| s.tag()).collect::<Vec<_>>(), "tree_depth": depth, "tree_lengths": blens}),
             assumptions: vec!["scaled constants; only targets inside [0, len] are generated (the property's domain); short reads are accepted".to_string()],
@@ -472,7 +515,8 @@ pub fn replay(path: &str) -> i32 {
             }
         };
         let mut t = 0;
-        outs.push(run_history(stack, &plain, &built, &hist, true, &mut t));
+        let cap = v["read_cap"].as_u64().unwrap_or(0) as usize;
+        outs.push(with_cap(cap, || run_history(stack, &plain, &built, &hist, true, &mut t)));
     }
     if outs[0].as_ref().map(|x| x.0.to_string()) != outs[1].as_ref().map(|x| x.0.to_string()) {
         eprintln!("machinery: replay is not deterministic");
